@@ -130,7 +130,7 @@ ConvScalar(t, base, txt, ftab) ==
     [] t = "bool" -> ParseBoolT(txt)
     [] IsSignedInt(t) -> IF base >= 2 /\ base <= 36 THEN ParseSigned(txt, base, IntBits(t)) ELSE Unspec
     [] IsUnsignedInt(t) -> IF base >= 2 /\ base <= 36 THEN ParseUnsigned(txt, base, IntBits(t)) ELSE Unspec
-    [] t = "um" -> ParseUM(txt)
+    [] t \in {"um", "us"} -> ParseUM(txt)        \* us: the harness' string-kinded type with the same Unmarshaler
     [] t = "tb" -> ParseTB(txt)
     [] OTHER -> Lookup(ftab, t, txt)              \* float32, float64, duration
 
